@@ -451,6 +451,33 @@ def index_ops(ctx, db, aff, r, n_cases):
             continue
         i = r.randrange(-d, d)
         x = r.choice([5.0, 0.25, -2.0, 1e3, 0.0, 12.5])
+        # an amount (or a target quantity) without any unit cannot re-express the items that are not addressed: the call is
+        # refused - or, if it answers, every other item is still the amount it was
+        if _ % 9 == 0:
+            from barril.units import Quantity as _Q
+
+            for how, fn in (("ChangingIndex(i, unit-less Scalar)", lambda: a.ChangingIndex(i, Scalar.CreateEmptyScalar(x))), ("IndexAsScalar(i, unit-less quantity)", lambda: a.IndexAsScalar(i, _Q.CreateEmpty())),
+                            ("ChangingIndex(i, unit-less Scalar, keep unit)", lambda: a.ChangingIndex(i, Scalar.CreateEmptyScalar(x), use_value_unit=False))):  # fmt: skip
+                ctx.ev()
+                case = {"qt": qt, "unit": u, "category": c, "values": vals, "container": kind, "index": i, "how": how}
+                try:
+                    res = fn()
+                except Exception:
+                    ctx.count("unit-less amounts / quantities refused by the index operations")
+                    continue
+                ctx.count("unit-less amounts / quantities answered by the index operations")
+                others_same = True
+                try:
+                    if isinstance(res, FixedArray):
+                        for j in range(d):
+                            if j != i % d and not (res.IndexAsScalar(j).GetQuantityType() == qt and abs(res.IndexAsScalar(j).GetValue(u) - float(vals[j])) <= 1e-9 * (abs(float(vals[j])) + 1.0)):
+                                others_same = False
+                    else:
+                        others_same = res.GetQuantityType() == qt and abs(res.GetValue(u) - float(vals[i % d])) <= 1e-9 * (abs(float(vals[i % d])) + 1.0)
+                except Exception:
+                    others_same = False
+                if not others_same:
+                    ctx.violation("index-operation-with-a-unit-less-amount-relabels-the-array", dict(case, result=srepr(res)[:160]), replay=case)
         form = r.choice(["number", "int", "(v,)", "(v,unit)", "Scalar(same unit)", "Scalar(other unit)", "Scalar(other category)", "Scalar(default category)"])
         use = r.choice([True, False])
         if form == "number":
